@@ -18,8 +18,10 @@
 package pilosa
 
 import (
+	"os"
 	"unsafe"
 
+	"github.com/pilosa/pilosa/logger"
 	"github.com/pilosa/pilosa/roaring"
 )
 
@@ -33,7 +35,7 @@ type VerifC03Frag struct{ f *fragment }
 func VerifC03OpenFragment(path string, shard uint64) (*VerifC03Frag, error) {
 	f := newFragment(path, "i", "f", viewStandard, shard, 0)
 	f.CacheType = CacheTypeNone
-	f.snapshotQueue = newSnapshotQueue(1, 1, nil)
+	f.snapshotQueue = newSnapshotQueue(1, 1, logger.NewStandardLogger(os.Stderr))
 	if err := f.Open(); err != nil {
 		return nil, err
 	}
@@ -50,6 +52,9 @@ func (v *VerifC03Frag) ClearRow(row uint64) (bool, error) { return v.f.clearRow(
 func (v *VerifC03Frag) Snapshot() error                    { return v.f.Snapshot() }
 func (v *VerifC03Frag) Close() error                       { return v.f.Close() }
 func (v *VerifC03Frag) Reopen() error                      { return v.f.Open() }
+
+// Quiesce waits until no snapshot of the fragment is queued or running.
+func (v *VerifC03Frag) Quiesce() { v.f.awaitSnapshot() }
 
 // Positions returns every bit of the fragment's storage.
 func (v *VerifC03Frag) Positions() []uint64 {
